@@ -32,6 +32,7 @@ pub fn cf_profile(t: &mut Tape) -> Profile {
         p.name_pool = vec!["x", "x_0"];
     }
     p.max_stmts = 6 + t.below(14);
+    p.elementwise_first = true;
     p
 }
 
